@@ -536,3 +536,416 @@ pub fn e2e(r: &mut Rng, count: usize, out: &mut Out) {
         with_width!(w, e2e_case, w, &code, &env, out);
     }
 }
+
+// -------------------------------------------------------------------------------------- smallvec
+
+mod sv {
+    use super::*;
+    use hpbf::verif::SmallVec;
+    use std::cell::RefCell;
+
+    thread_local! {
+        static NEXT_ID: RefCell<u64> = RefCell::new(0);
+        static DROPS: RefCell<Vec<u64>> = RefCell::new(Vec::new());
+    }
+
+    pub struct Tracked {
+        pub id: u64,
+        pub val: u64,
+    }
+    impl Tracked {
+        pub fn new(val: u64) -> Self {
+            let id = NEXT_ID.with(|n| {
+                let mut n = n.borrow_mut();
+                *n += 1;
+                *n
+            });
+            Tracked { id, val }
+        }
+    }
+    impl Clone for Tracked {
+        fn clone(&self) -> Self {
+            Tracked::new(self.val)
+        }
+    }
+    impl Drop for Tracked {
+        fn drop(&mut self) {
+            DROPS.with(|d| d.borrow_mut().push(self.id));
+        }
+    }
+    impl PartialEq for Tracked {
+        fn eq(&self, o: &Self) -> bool {
+            self.val == o.val
+        }
+    }
+    impl Eq for Tracked {}
+    impl PartialOrd for Tracked {
+        fn partial_cmp(&self, o: &Self) -> Option<std::cmp::Ordering> {
+            Some(self.cmp(o))
+        }
+    }
+    impl Ord for Tracked {
+        fn cmp(&self, o: &Self) -> std::cmp::Ordering {
+            self.val.cmp(&o.val)
+        }
+    }
+
+    fn take_drops() -> String {
+        DROPS.with(|d| {
+            let mut d = d.borrow_mut();
+            let s = if d.is_empty() {
+                "-".to_string()
+            } else {
+                d.iter().map(|x| x.to_string()).collect::<Vec<_>>().join(",")
+            };
+            d.clear();
+            s
+        })
+    }
+
+    fn view<const N: usize>(v: &SmallVec<Tracked, N>) -> String {
+        let s = v.as_slice();
+        if s.is_empty() {
+            "-".to_string()
+        } else {
+            s.iter().map(|t| format!("{}:{}", t.id, t.val)).collect::<Vec<_>>().join(",")
+        }
+    }
+
+    pub fn history<const N: usize>(r: &mut Rng, out: &mut Out) {
+        NEXT_ID.with(|n| *n.borrow_mut() = 0);
+        DROPS.with(|d| d.borrow_mut().clear());
+        let mut created: u64;
+        let mut all_drops: Vec<u64> = Vec::new();
+        let mut vars: Vec<Option<SmallVec<Tracked, N>>> = vec![None, None, None];
+        let mut req = format!("sv {N}");
+        let mut imp: Vec<String> = Vec::new();
+        let nops = 1 + r.below(14);
+        let small = |r: &mut Rng| r.below(4);
+        for _ in 0..nops {
+            let a = r.below(3) as usize;
+            let before_drops = |imp: &mut Vec<String>, all: &mut Vec<u64>, s: String| {
+                DROPS.with(|d| all.extend(d.borrow().iter().copied()));
+                let dr = take_drops();
+                imp.push(format!("{s}/{dr}"));
+            };
+            if vars[a].is_none() {
+                match r.below(4) {
+                    0 => {
+                        vars[a] = Some(SmallVec::new());
+                        req.push_str(&format!(" new:{a}"));
+                        out.stat("new");
+                    }
+                    1 => {
+                        let n = r.below(5);
+                        vars[a] = Some(SmallVec::with_capacity(n as usize));
+                        req.push_str(&format!(" cap:{a}:{n}"));
+                        out.stat("with_capacity");
+                    }
+                    2 => {
+                        let k = r.below(4);
+                        let vals: Vec<u64> = (0..k).map(|_| small(r)).collect();
+                        let v: Vec<Tracked> = vals.iter().map(|&x| Tracked::new(x)).collect();
+                        vars[a] = Some(SmallVec::from_vec(v));
+                        req.push_str(&format!(
+                            " fromvec:{a}:{}",
+                            if vals.is_empty() { "-".to_string() } else { vals.iter().map(|x| x.to_string()).collect::<Vec<_>>().join(",") }
+                        ));
+                        out.stat("from_vec");
+                    }
+                    _ => {
+                        let x = small(r);
+                        vars[a] = Some(SmallVec::with(Tracked::new(x)));
+                        req.push_str(&format!(" with:{a}:{x}"));
+                        out.stat("with");
+                    }
+                }
+                let s = view(vars[a].as_ref().unwrap());
+                before_drops(&mut imp, &mut all_drops, s);
+                continue;
+            }
+            match r.below(16) {
+                0..=3 => {
+                    let x = small(r);
+                    vars[a].as_mut().unwrap().push(Tracked::new(x));
+                    req.push_str(&format!(" push:{a}:{x}"));
+                    out.stat("push");
+                }
+                4 => {
+                    let k = r.below(4);
+                    let vals: Vec<u64> = (0..k).map(|_| small(r)).collect();
+                    let els: Vec<Tracked> = vals.iter().map(|&x| Tracked::new(x)).collect();
+                    vars[a].as_mut().unwrap().extend(els.into_iter());
+                    req.push_str(&format!(
+                        " ext:{a}:{}",
+                        if vals.is_empty() { "-".to_string() } else { vals.iter().map(|x| x.to_string()).collect::<Vec<_>>().join(",") }
+                    ));
+                    out.stat("extend");
+                }
+                5 => {
+                    vars[a].as_mut().unwrap().clear();
+                    req.push_str(&format!(" clear:{a}"));
+                    out.stat("clear");
+                }
+                6 | 7 => {
+                    let m = 2 + r.below(2);
+                    let rr = r.below(m);
+                    vars[a].as_mut().unwrap().retain(|t| t.val % m != rr);
+                    req.push_str(&format!(" retain:{a}:{m}:{rr}"));
+                    out.stat("retain");
+                }
+                8 => {
+                    let m = 2 + r.below(2);
+                    let rr = r.below(m);
+                    vars[a].as_mut().unwrap().retain_mut(|t| {
+                        t.val += 1;
+                        t.val % m != rr
+                    });
+                    req.push_str(&format!(" retmut:{a}:{m}:{rr}"));
+                    out.stat("retain_mut");
+                }
+                9 | 10 => {
+                    vars[a].as_mut().unwrap().dedup();
+                    req.push_str(&format!(" dedup:{a}"));
+                    out.stat("dedup");
+                }
+                11 => {
+                    vars[a].as_mut().unwrap().sort();
+                    req.push_str(&format!(" sort:{a}"));
+                    out.stat("sort");
+                }
+                12 => {
+                    let b = (a + 1 + r.below(2) as usize) % 3;
+                    let c = vars[a].as_ref().unwrap().clone();
+                    vars[b] = Some(c);
+                    req.push_str(&format!(" clone:{a}:{b}"));
+                    out.stat("clone");
+                    let s = view(vars[b].as_ref().unwrap());
+                    before_drops(&mut imp, &mut all_drops, s);
+                    continue;
+                }
+                13 => {
+                    let b = (a + 1 + r.below(2) as usize) % 3;
+                    if let Some(vb) = vars[b].as_ref() {
+                        let va = vars[a].as_ref().unwrap();
+                        let e = va == vb;
+                        let c = match va.cmp(vb) {
+                            std::cmp::Ordering::Less => "lt",
+                            std::cmp::Ordering::Equal => "eq",
+                            std::cmp::Ordering::Greater => "gt",
+                        };
+                        req.push_str(&format!(" cmp:{a}:{b}"));
+                        imp.push(format!("{e},{c}"));
+                        out.stat("cmp");
+                    }
+                    continue;
+                }
+                14 => {
+                    let k = r.below(4);
+                    let v = vars[a].take().unwrap();
+                    let mut it = v.into_iter();
+                    let mut got = Vec::new();
+                    for _ in 0..k {
+                        if let Some(t) = it.next() {
+                            got.push(format!("{}:{}", t.id, t.val));
+                        } else {
+                            got.push("none".to_string());
+                        }
+                    }
+                    drop(it);
+                    req.push_str(&format!(" iter:{a}:{k}"));
+                    out.stat("into_iter");
+                    let s = if got.is_empty() { "-".to_string() } else { got.join(",") };
+                    before_drops(&mut imp, &mut all_drops, s);
+                    continue;
+                }
+                _ => {
+                    vars[a] = None;
+                    req.push_str(&format!(" drop:{a}"));
+                    out.stat("drop");
+                    before_drops(&mut imp, &mut all_drops, "-".to_string());
+                    continue;
+                }
+            }
+            let s = view(vars[a].as_ref().unwrap());
+            before_drops(&mut imp, &mut all_drops, s);
+        }
+        // end of history: drop everything, then every created element must have been dropped once
+        for v in vars.iter_mut() {
+            *v = None;
+        }
+        DROPS.with(|d| all_drops.extend(d.borrow().iter().copied()));
+        let dr = take_drops();
+        created = NEXT_ID.with(|n| *n.borrow());
+        let mut counts = vec![0u32; created as usize + 1];
+        for &d in &all_drops {
+            counts[d as usize] += 1;
+        }
+        let leaked: Vec<String> = (1..=created).filter(|&i| counts[i as usize] == 0).map(|i| i.to_string()).collect();
+        let twice: Vec<String> = (1..=created).filter(|&i| counts[i as usize] > 1).map(|i| i.to_string()).collect();
+        created = created;
+        req.push_str(" end");
+        imp.push(format!(
+            "end/{dr}/leaked={}/twice={}/created={created}",
+            if leaked.is_empty() { "-".to_string() } else { leaked.join(",") },
+            if twice.is_empty() { "-".to_string() } else { twice.join(",") }
+        ));
+        out.case(&req, &imp.join(" "));
+    }
+}
+
+pub fn smallvec(r: &mut Rng, count: usize, out: &mut Out) {
+    for _ in 0..count {
+        match r.below(4) {
+            0 => sv::history::<0>(r, out),
+            1 | 2 => sv::history::<1>(r, out),
+            _ => sv::history::<2>(r, out),
+        }
+    }
+}
+
+// ------------------------------------------------------------------------------------------ expr
+
+fn expr_queries<C: CellType>(e: &ir::Expr<C>, assign: &[u64; 4]) -> String {
+    let optc = |o: Option<C>| o.map_or("none".to_string(), |c| c.into_u64().to_string());
+    let opte = |o: Option<ir::Expr<C>>| o.map_or("none".to_string(), |e| encode_expr(&e));
+    let mut s = format!(
+        "const={} ident={} cpart={} zero={} ops={} adds={} vars={}",
+        optc(e.constant()),
+        e.identity().map_or("none".to_string(), |v| v.to_string()),
+        e.constant_part().into_u64(),
+        e.is_zero(),
+        e.op_count(),
+        e.add_count(),
+        {
+            let v: Vec<String> = e.variables().map(|v| v.to_string()).collect();
+            if v.is_empty() { "-".to_string() } else { v.join(",") }
+        }
+    );
+    for i in [0isize, 1] {
+        s.push_str(&format!(
+            " inc{i}={} pinc{i}={} cinc{i}={} prod{i}={}",
+            opte(e.inc_of(i)),
+            e.prod_inc_of(i)
+                .map_or("none".to_string(), |(e, m)| format!("{}@{}", encode_expr(&e), m.into_u64())),
+            optc(e.const_inc_of(i)),
+            opte(e.prod_of(i)),
+        ));
+    }
+    let val = e.evaluate(|v| C::from_u64(assign[(v + 1) as usize]));
+    s.push_str(&format!(" eval={}", val.into_u64()));
+    s
+}
+
+fn expr_case<C: CellType>(w: u32, r: &mut Rng, out: &mut Out) {
+    let mut stack: Vec<ir::Expr<C>> = Vec::new();
+    let mut req = format!("expr {w}");
+    let mut imp: Vec<String> = Vec::new();
+    let assign = [interesting(r, w), interesting(r, w), r.below(5), interesting(r, w)];
+    req.push_str(&format!(" env:{},{},{},{}", assign[0], assign[1], assign[2], assign[3]));
+    let n = 2 + r.below(14);
+    let half_mod = 1u64 << (w - 1);
+    let mask = if w == 64 { u64::MAX } else { (1u64 << w) - 1 };
+    for _ in 0..n {
+        let choice = if stack.len() < 2 { r.below(2) } else { 2 + r.below(12) };
+        match choice {
+            0 => {
+                let c = match r.below(8) {
+                    0 => 0,
+                    1 => 1,
+                    2 => mask,
+                    3 => half_mod,
+                    4 => half_mod + 1,
+                    5 => half_mod - 1,
+                    6 => 2,
+                    _ => r.next() & mask,
+                };
+                stack.push(ir::Expr::val(C::from_u64(c)));
+                req.push_str(&format!(" v:{c}"));
+                out.stat("val");
+            }
+            1 => {
+                let v = r.range(-1, 2);
+                stack.push(ir::Expr::var(v as isize));
+                req.push_str(&format!(" x:{v}"));
+                out.stat("var");
+            }
+            2..=4 => {
+                let b = stack.pop().unwrap();
+                let a = stack.pop().unwrap();
+                stack.push(a.add(&b));
+                req.push_str(" add");
+                out.stat("add");
+            }
+            5..=8 => {
+                let b = stack.pop().unwrap();
+                let a = stack.pop().unwrap();
+                stack.push(if r.chance(1, 2) { a.mul(&b) } else { a.mul(b) });
+                req.push_str(" mul");
+                out.stat("mul");
+            }
+            9 => {
+                let a = stack.pop().unwrap();
+                stack.push(a.neg());
+                req.push_str(" neg");
+                out.stat("neg");
+            }
+            10 => {
+                let a = stack.pop().unwrap();
+                match a.half() {
+                    Some(h) => {
+                        stack.push(h);
+                        out.stat("half_some");
+                    }
+                    None => {
+                        stack.push(a);
+                        out.stat("half_none");
+                    }
+                }
+                req.push_str(" half");
+            }
+            11 => {
+                let a = stack.pop().unwrap();
+                stack.push(a.normalize());
+                req.push_str(" norm");
+                out.stat("normalize");
+            }
+            12 => {
+                let i = r.range(-1, 2) as isize;
+                let b = stack.pop().unwrap();
+                let a = stack.pop().unwrap();
+                let res = a
+                    .symb_evaluate(|v| if v == i { Some(b.clone()) } else { Some(ir::Expr::var(v)) })
+                    .unwrap();
+                stack.push(res);
+                req.push_str(&format!(" sub:{i}"));
+                out.stat("symb_evaluate");
+            }
+            _ => {
+                let i = r.range(-1, 2) as isize;
+                let a = stack.pop().unwrap();
+                match a.symb_evaluate(|v| if v == i { None } else { Some(ir::Expr::var(v)) }) {
+                    Some(e) => {
+                        stack.push(e);
+                        out.stat("symb_partial_some");
+                    }
+                    None => {
+                        stack.push(a);
+                        out.stat("symb_partial_none");
+                    }
+                }
+                req.push_str(&format!(" subnone:{i}"));
+            }
+        }
+        imp.push(encode_expr(stack.last().unwrap()));
+    }
+    imp.push(expr_queries(stack.last().unwrap(), &assign));
+    out.case(&req, &imp.join(" "));
+}
+
+pub fn expr(r: &mut Rng, count: usize, out: &mut Out) {
+    for _ in 0..count {
+        let w = *r.pick(&WIDTHS);
+        with_width!(w, expr_case, w, r, out);
+    }
+}
